@@ -460,16 +460,16 @@ SUBS = [
         exhaustive_note='all 530 labelled digraphs on 1-3 nodes in three variants (nouns with '
                         'computed weights; a/s mix and mixed classes with given weights); all '
                         'ordered pairs; simulate_root False and True',
-        sample=_sample, purge_every=8,
+        sample=_sample, purge_every=8, case_timeout=900,
         require_tags=('has-cycle', 'multiple-inheritance', '>=2-LCS', 'a/s-mix',
                       'mixed-pos-classes', 'ic:compute', 'ic:weights', 'diamond')),
     Sub('drawn-n=4', oracle, _classify, strategy=_drawn_4,
-        budget={'quick': 20, 'thorough': 85}, sample=_sample, purge_every=8,
+        budget={'quick': 20, 'thorough': 85}, sample=_sample, purge_every=8, case_timeout=900,
         require_tags=('>=2-LCS', 'a/s-mix', 'mixed-pos-classes')),
     Sub('random-n=5..8', oracle, _classify, strategy=_random_big,
-        budget={'quick': 25, 'thorough': 40}, sample=_sample, purge_every=8,
+        budget={'quick': 25, 'thorough': 40}, sample=_sample, purge_every=8, case_timeout=900,
         require_tags=('>=2-LCS', '>=2-LCS-at-different-distances', 'family:layered')),
     Sub('several-lcs', oracle, _classify, strategy=_two_lcs,
-        budget={'quick': 30, 'thorough': 60}, sample=_sample, purge_every=8,
+        budget={'quick': 30, 'thorough': 60}, sample=_sample, purge_every=8, case_timeout=900,
         require_tags=('>=2-LCS-at-different-distances', 'family:two-lcs')),
 ]
